@@ -4,11 +4,11 @@ set -u
 patch="$1"; shift
 cd /repo || exit 2
 if ! git diff --quiet; then echo "/repo has local changes; refusing"; exit 2; fi
-if ! git apply --check "$patch" 2>/dev/null; then
-  if git apply --3way --check "$patch" 2>/dev/null; then :; else echo "PATCH-DOES-NOT-APPLY $patch"; exit 3; fi
-fi
-git apply "$patch" || git apply --3way "$patch"
-trap 'cd /repo && git checkout -q -- . && git reset -q' EXIT
+# prefer a rebased copy of the patch when the seeded one predates a fix: commit
+[ -f "${patch%.diff}.rebased.diff" ] && patch="${patch%.diff}.rebased.diff"
+if ! git apply --check "$patch" 2>/dev/null; then echo "PATCH-DOES-NOT-APPLY $patch"; exit 3; fi
+git apply "$patch"
+trap 'cd /repo && git reset -q --hard HEAD' EXIT
 cd /verif
 for p in "$@"; do
   out=$(./check "$p" --tier ${TIER:-quick} 2>&1); rc=$?
